@@ -42,3 +42,25 @@ func VerifTsigVerify(msg []byte, secret, requestMAC string, timersOnly bool, now
 func VerifTsigVerifyProvider(msg []byte, p TsigProvider, requestMAC string, timersOnly bool, now uint64) error {
 	return tsigVerify(msg, p, requestMAC, timersOnly, now)
 }
+
+// VerifGenerate returns the byte stream the $GENERATE sub-reader produces for the given range and
+// right-hand side, and the error message if the reader stops with a parse error.
+func VerifGenerate(start, end, step int64, rhs string) ([]byte, string) {
+	l := lex{}
+	r := &generateReader{s: rhs, cur: start, start: start, end: end, step: step, lex: &l}
+	var out []byte
+	for len(out) < 1<<24 {
+		b, err := r.ReadByte()
+		if err != nil {
+			if pe, ok := err.(*ParseError); ok {
+				return out, pe.err
+			}
+			return out, ""
+		}
+		out = append(out, b)
+	}
+	return out, "too long"
+}
+
+// VerifStringToTTL exposes stringToTTL.
+func VerifStringToTTL(s string) (uint32, bool) { return stringToTTL(s) }
